@@ -130,6 +130,50 @@ theorem looping_iff_budget_spent (c : Cfg ℝ) (hc : CfgOK c) (κ : ℝ) (hκ : 
     simp only [NumR.lt_real, NumR.gt_real, NumR.eq_real, NumR.lit0, Bool.and_eq_true,
       decide_eq_true_eq, h0, hd, and_self, if_true, hne, if_false, hb]
 
+/-- ★ C08.4b the three outcomes are exclusive: a propagation flagged `looping` has NOT
+    completed its step — the returned distance is strictly below the requested step (this is
+    what `PropagationApplier` relies on when it treats looping as an incomplete step) — and
+    conversely, when the substep budget is spent (`max_substeps` accepted) and the track is not
+    flagged, the full step has been travelled: the returned distance equals the step. -/
+theorem looping_implies_incomplete (c : Cfg ℝ) (hc : CfgOK c) (κ : ℝ) (hκ : 1 ≤ κ)
+    (p : ℝ) (gpos gdir : Vec3 ℝ) (onb : Bool) (answers : List (Answer ℝ)) (mtbPos : Vec3 ℝ)
+    (its : List (Iter ℝ)) (f : PState ℝ) (left : List (Answer ℝ))
+    (hl : loop c (PState.init c p gpos gdir onb) answers = some (its, f, left))
+    (hall : ∀ it ∈ its, AnsOK c κ it.pre it.ans) :
+    ((finish c f mtbPos).1.looping = true → (finish c f mtbPos).1.distance < c.step)
+    ∧ ((accepted c its : ℤ) = c.maxSub → (finish c f mtbPos).1.looping = false →
+        (finish c f mtbPos).1.distance = c.step ∧ (finish c f mtbPos).1.boundary = false) := by
+  obtain ⟨hiff, himp⟩ := looping_iff_budget_spent c hc κ hκ p gpos gdir onb answers mtbPos its f
+    left hl hall
+  obtain ⟨hinv, _, _, hrem, _, hz⟩ := loop_spec c hc κ hκ answers _ none _ _ _
+    (inv_init c hc p gpos gdir onb)
+    (by simp only [PState.init]; exact hc.maxSub_pos) (by intro _ h0; simp [PState.init] at h0)
+    hl hall
+  simp only [PState.init] at hrem
+  constructor
+  · intro hloop
+    rw [(himp hloop).2]
+    exact (hiff.mp hloop).2
+  · intro hacc hnl
+    have h0 : f.remSub = 0 := by omega
+    have hb := hz h0
+    have hnlt : ¬ f.distance < c.step := by
+      intro hd
+      have := hiff.mpr ⟨hacc, hd⟩
+      rw [this] at hnl; exact absurd hnl (by simp)
+    have hle : f.distance ≤ c.step := by
+      have := hinv.rem_nonneg; have := hinv.sum_le; linarith
+    have heq : f.distance = c.step := le_antisymm hle (not_lt.mp hnlt)
+    have hpos : 0 < f.distance := hinv.acc_pos (by rw [h0]; exact hc.maxSub_pos)
+    have hne : ¬ f.distance = 0 := ne_of_gt hpos
+    have hirr : ¬ c.step < c.step := lt_irrefl _
+    unfold finish
+    simp only [NumR.lt_real, NumR.gt_real, NumR.eq_real, NumR.lit0, Bool.and_eq_true,
+      decide_eq_true_eq, h0, heq, hirr, and_false, if_false, hb, Bool.false_eq_true]
+    have hsp := hc.step_pos
+    have hsne : ¬ c.step = 0 := ne_of_gt hsp
+    simp [hsp, hsne]
+
 /-- C08.5 the propagator never changes the magnitude of the momentum: the result carries no
     momentum or energy at all (the particle view is read-only), the momentum of the internal ODE
     state is only ever *copied* from a driver answer, it is not modified after the loop, and the
